@@ -33,12 +33,38 @@ def run(chk):
             found += chk.violation('decision-rule', fails[0], {'kind': 'steps', 'case': case})
             if found > 2:
                 break
+    # long runs with a quiet late phase (neither M nor z* changes for thousands of iterations): binary64 arg-max check at every step
+    longs = []
+    for i in range(6 if thorough else 1):
+        side = 1.0
+        a = round(rng.uniform(0.2, 0.5), 3)
+        objs = [{'kind': 'pwl1d', 'xs': [0.0, a - 0.17, a + 0.23, 1.0], 'vs': [a - 0.17, 0.0, 0.0, 0.77 - a]},      # hinge: a flat basin, uniform refinement inside
+                {'kind': 'sin', 'w': [round(rng.uniform(2, 9), 2)], 'a': [1.0]},
+                {'kind': 'const', 'c': 0.5}]
+        case = {'n': 1, 'lo': [0.0], 'hi': [1.0], 'r': rng.choice([1.5, 2.0, 2.5]), 'eps': 1e-300, 'iters': 16000 if (thorough or i == 0) else 6000, 'density': None,
+                'objective': objs[i % 3]}
+        if thorough and i >= 3:
+            case.update({'n': 2, 'lo': [0.0, 0.0], 'hi': [1.0, 1.0], 'iters': 9000})
+            case['objective'] = {'kind': 'cones', 'centers': [[0.5, 0.5]], 'slopes': [0.01], 'offsets': [0.0]}
+        res = O.guarded(O.c02_long, case)
+        chk.evaluations += 1
+        if isinstance(res, tuple):
+            fails, st = res
+            longs.append(st); chk.nontrivial += st['steps']
+        else:
+            fails = res
+        if fails:
+            found += chk.violation('decision-rule', fails[0], {'kind': 'long', 'case': case})
+    chk.cov['long_runs'] = longs
     chk.cov['oracle_stats'] = stats
     chk.nontrivial += stats['steps']
     S.report_corr(chk, bad, errors, found)
 
 
 def replay(chk, rp):
+    if rp.get('kind') == 'long':
+        res = O.guarded(O.c02_long, rp['case']); fails = res[0] if isinstance(res, tuple) else res
+        print(fails); return not fails
     if rp.get('kind') == 'steps':
         res = O.guarded(lambda c: O.c02_steps(c, check04=False, check06=False), rp['case'])
         fails = res[0] if isinstance(res, tuple) else res
